@@ -143,19 +143,6 @@ Definition resolve_namespaces (target : option str) (raw : option str) : list st
   end.
 
 (* --------------------------------------------------------- generic values *)
-Inductive gval :=
-| GAny (q : option str) (text tail : option str) (kids : list gval) (atts : attrs)   (* AnyElement *)
-| GText (s : option str)                                                            (* a str item of a wildcard list *)
-| GDerived (q : str) (v : prim).                                                    (* DerivedElement(qname, value, type=None) *)
-
-Inductive wval := WNone | WOne (v : gval) | WMany (l : list gval).
-Record robj := mkRobj { r_atts : attrs; r_w : wval }.
-
-Inductive perr := EParser | EConverter | EContext | EUnsupported.
-Inductive res (A : Type) := Ok (a : A) | Err (e : perr).
-Arguments Ok {A} a.
-Arguments Err {A} e.
-
 Inductive wkind := KSingle | KList | KMixed | KChoice.
 Record wcfg := mkCfg {
   c_rq : str;            (* meta.qname of the holder class *)
@@ -165,7 +152,28 @@ Record wcfg := mkCfg {
   c_amap : bool;         (* the class also has an ##any Attributes map *)
   c_typed : list str     (* qnames of the typed choices of a compound field *)
 }.
-Inductive mode := MTree | MTyped (c : wcfg).
+(* the value of a wildcard field: None / one value / a list *)
+Inductive wshape := SNone | SOne | SMany.
+
+Inductive gval :=
+| GAny (q : option str) (text tail : option str) (kids : list gval) (atts : attrs)   (* AnyElement *)
+| GText (s : option str)                                                            (* a str item of a wildcard list *)
+| GDerived (q : str) (v : prim)                                                     (* DerivedElement(qname, value, type=None) *)
+| GHolder (c : wcfg) (ra : attrs) (sh : wshape) (items : list gval).                (* instance of a holder class found by qname *)
+
+Inductive wval := WNone | WOne (v : gval) | WMany (l : list gval).
+Record robj := mkRobj { r_atts : attrs; r_w : wval }.
+Definition w_shape (w : wval) : wshape := match w with WNone => SNone | WOne _ => SOne | WMany _ => SMany end.
+Definition w_items (w : wval) : list gval := match w with WNone => [] | WOne v => [v] | WMany l => l end.
+Definition holder_gval (c : wcfg) (o : robj) : gval := GHolder c (r_atts o) (w_shape (r_w o)) (w_items (r_w o)).
+
+Inductive perr := EParser | EConverter | EContext | ETypeError | EUnsupported.
+Inductive res (A : Type) := Ok (a : A) | Err (e : perr).
+Arguments Ok {A} a.
+Arguments Err {A} e.
+
+(* `reg`: the holder classes the context finds by element qname (find_type) *)
+Inductive mode := MTree | MTyped (reg : list wcfg) (c : wcfg).
 
 (* ------------------------------------------------------------ xsi:type *)
 Definition is_ascii (c : N) : bool := c <? 128.
@@ -245,29 +253,45 @@ Definition datatype_of_value (p : prim) : str :=
 Inductive node :=
 | NWild (vq : str) (a : attrs) (ns : nsmap) (pos : nat)
 | NRoot (a : attrs) (ns : nsmap)
+| NElem (c : wcfg) (a : attrs) (ns : nsmap) (pos : nat)      (* ElementNode of a holder class found by qname *)
 | NStd (k : dtkind) (ns : nsmap).
 
 Definition objects := list (option str * gval).
 Record pstate := mkP { p_queue : list node; p_objs : objects; p_done : option robj }.
 Definition pinit : pstate := mkP [] [] None.
 
+Definition has_xsi (a : attrs) : bool :=
+  match attr_get xsi_type_q a, attr_get xsi_nil_q a with None, None => false | _, _ => true end.
+
+(* `context.find_type(qname)` over the registered holder classes; inheritance of the
+   parent namespace (context.fetch(clazz, parent_ns)) and xsi attributes on such an
+   element are outside the modelled slice *)
+Definition generic_or_class (reg : list wcfg) (c : wcfg) (q : str) (a : attrs) (ns : nsmap) (pos : nat) : res node :=
+  match find (fun n => str_eqb (c_rq n) q) reg with
+  | Some n =>
+      if has_xsi a then Err EUnsupported
+      else match target_uri (c_rq c), c_kind n with
+           | None, KChoice => Err EUnsupported
+           | None, _ => Ok (NElem n a ns pos)
+           | Some _, _ => Err EUnsupported
+           end
+  | None => Ok (NWild (c_vq c) a ns pos)
+  end.
+
 (* ElementNode.child + build_node for the holder class *)
-Definition child_of_root (c : wcfg) (q : str) (a : attrs) (ns : nsmap) (pos : nat) : res node :=
+Definition child_of_root (reg : list wcfg) (c : wcfg) (q : str) (a : attrs) (ns : nsmap) (pos : nat) : res node :=
   if existsb (str_eqb q) (c_typed c) then Err EUnsupported
   else if negb (match_namespace (c_nss c) q) then Err EParser
   else match xsi_type a ns with
        | Err e => Err e
-       | Ok None => Ok (NWild (c_vq c) a ns pos)
+       | Ok None => generic_or_class reg c q a ns pos
        | Ok (Some t) =>
            match datatype_of_qname t with
            | Some (Some k) => Ok (NStd k ns)
            | Some None => Err EUnsupported
-           | None => Ok (NWild (c_vq c) a ns pos)
+           | None => generic_or_class reg c q a ns pos
            end
        end.
-
-Definition has_xsi (a : attrs) : bool :=
-  match attr_get xsi_type_q a, attr_get xsi_nil_q a with None, None => false | _, _ => true end.
 
 Definition pstart (m : mode) (st : pstate) (q : str) (a : attrs) (ns : nsmap) : res pstate :=
   match p_queue st with
@@ -277,7 +301,7 @@ Definition pstart (m : mode) (st : pstate) (q : str) (a : attrs) (ns : nsmap) : 
           let '(nsu, name) := split_qname q in
           let vq := build_qname (default_namespace (match nsu with Some u => [u] | None => [] end)) name in
           Ok (mkP [NWild vq a ns 0] (p_objs st) (p_done st))
-      | MTyped c =>
+      | MTyped _ c =>
           if has_xsi a then Err EUnsupported
           else Ok (mkP [NRoot a ns] (p_objs st) (p_done st))
       end
@@ -285,9 +309,18 @@ Definition pstart (m : mode) (st : pstate) (q : str) (a : attrs) (ns : nsmap) : 
       Ok (mkP (NWild vq a ns (length (p_objs st)) :: p_queue st) (p_objs st) (p_done st))
   | NRoot _ _ :: _ =>
       match m with
-      | MTyped c =>
-          match child_of_root c q a ns (length (p_objs st)) with
+      | MTyped reg c =>
+          match child_of_root reg c q a ns (length (p_objs st)) with
           | Ok n => Ok (mkP (n :: p_queue st) (p_objs st) (p_done st))
+          | Err e => Err e
+          end
+      | MTree => Err EUnsupported
+      end
+  | NElem n _ _ _ :: _ =>
+      match m with
+      | MTyped reg _ =>
+          match child_of_root reg n q a ns (length (p_objs st)) with
+          | Ok n' => Ok (mkP (n' :: p_queue st) (p_objs st) (p_done st))
           | Err e => Err e
           end
       | MTree => Err EUnsupported
@@ -328,7 +361,7 @@ Definition bind_object (c : wcfg) (w : res wval) (kv : option str * gval) : res 
   | Err e => Err e
   | Ok w' =>
       match fst kv with
-      | None => Err EUnsupported
+      | None => Err ETypeError   (* find_children(None) -> split_qname(None): 'NoneType' object is not subscriptable *)
       | Some key =>
           if existsb (str_eqb key) (c_typed c) then Err EUnsupported
           else if match_namespace (c_nss c) key then Ok (bind_wild_var (c_kind c) w' (snd kv))
@@ -351,9 +384,8 @@ Definition bind_wild_text (c : wcfg) (a : attrs) (ns : nsmap) (text tail : optio
       end
   end.
 
-(* ElementNode.bind for the holder element (position 0, no xsi:nil, not derived) *)
-Definition bind_root (c : wcfg) (a : attrs) (ns : nsmap) (text tail : option str) (objs : objects) : res robj :=
-  let ra := if c_amap c then parse_any_attributes ns a else [] in
+(* ElementNode.bind_content: the field value and tail_processed *)
+Definition bind_core (c : wcfg) (a : attrs) (ns : nsmap) (text tail : option str) (objs : objects) : res (wval * bool) :=
   let w0 : res wval :=
     match c_kind c with
     | KMixed => Ok (WMany (map snd objs))
@@ -362,22 +394,43 @@ Definition bind_root (c : wcfg) (a : attrs) (ns : nsmap) (text tail : option str
   match w0 with
   | Err e => Err e
   | Ok w =>
-      let '(w', processed) :=
-        match c_kind c with
-        | KChoice => (w, false)
-        | _ => bind_wild_text c a ns text tail w
-        end in
+      Ok (match c_kind c with
+          | KChoice => (w, false)
+          | _ => bind_wild_text c a ns text tail w
+          end)
+  end.
+
+(* a list field that received nothing keeps its default factory value *)
+Definition finish_w (c : wcfg) (w' : wval) : wval :=
+  match c_kind c, w' with
+  | KSingle, _ => w'
+  | _, WNone => WMany []
+  | _, _ => w'
+  end.
+Definition holder_atts (c : wcfg) (a : attrs) (ns : nsmap) : attrs :=
+  if c_amap c then parse_any_attributes ns a else [].
+
+(* ElementNode.bind for the holder element (position 0, no xsi:nil, not derived) *)
+Definition bind_root (c : wcfg) (a : attrs) (ns : nsmap) (text tail : option str) (objs : objects) : res robj :=
+  match bind_core c a ns text tail objs with
+  | Err e => Err e
+  | Ok (w', processed) =>
       (* an unprocessed non-blank tail would be appended to `objects` after the
          object and returned instead of it: never the case for a document root *)
       if negb processed && truthy (normalize_content tail) then Err EUnsupported
-      else
-        (* a list field that received nothing keeps its default factory value *)
-        let w'' := match c_kind c, w' with
-                   | KSingle, _ => w'
-                   | _, WNone => WMany []
-                   | _, _ => w'
-                   end in
-        Ok (mkRobj ra w'')
+      else Ok (mkRobj (holder_atts c a ns) (finish_w c w'))
+  end.
+
+(* ElementNode.bind for a holder found by qname below another holder: the object,
+   then the tail as a separate text object unless bind_wild_text consumed it *)
+Definition bind_nested (c : wcfg) (a : attrs) (ns : nsmap) (pos : nat) (q : str) (text tail : option str)
+           (objs : objects) : res objects :=
+  match bind_core c a ns text tail (skipn pos objs) with
+  | Err e => Err e
+  | Ok (w', processed) =>
+      let o := (Some q, holder_gval c (mkRobj (holder_atts c a ns) (finish_w c w'))) in
+      let tl := normalize_content tail in
+      Ok (firstn pos objs ++ o :: (if negb processed && truthy tl then [(None, GText tl)] else []))
   end.
 
 Definition pend (m : mode) (st : pstate) (q : str) (text tail : option str) : res pstate :=
@@ -387,12 +440,17 @@ Definition pend (m : mode) (st : pstate) (q : str) (text tail : option str) : re
   | NStd k ns :: rest => Ok (mkP rest (p_objs st ++ [(Some q, GDerived q (std_value k text))]) (p_done st))
   | NRoot a ns :: rest =>
       match m with
-      | MTyped c =>
+      | MTyped _ c =>
           match bind_root c a ns text tail (p_objs st) with
           | Ok o => Ok (mkP rest [] (Some o))
           | Err e => Err e
           end
       | MTree => Err EUnsupported
+      end
+  | NElem n a ns pos :: rest =>
+      match bind_nested n a ns pos q text tail (p_objs st) with
+      | Ok objs' => Ok (mkP rest objs' (p_done st))
+      | Err e => Err e
       end
   end.
 
@@ -419,8 +477,8 @@ Definition tree_parse (evs : list pevent) : option gval :=
   end.
 
 (* XmlParser(...).parse(source, Holder) *)
-Definition wild_parse (c : wcfg) (evs : list pevent) : res robj :=
-  match prun (MTyped c) evs pinit with
+Definition wild_parse (reg : list wcfg) (c : wcfg) (evs : list pevent) : res robj :=
+  match prun (MTyped reg c) evs pinit with
   | Ok st => match p_queue st, p_done st with
              | [], Some o => Ok o
              | _, _ => Err EUnsupported
@@ -445,6 +503,9 @@ Fixpoint gen_val (v : gval) : list wevent :=
       ++ (if truthy tail then [WData (option_map PStr tail)] else [])
   | GText s => [WData (option_map PStr s)]
   | GDerived q p => [WStart q; WAttr xsi_type_q (AVQName (datatype_of_value p)); WData (Some p); WEnd q]
+  | GHolder c ra _ items =>
+      (* convert_xsi_type -> convert_dataclass(value, namespace): the class's own element *)
+      WStart (c_rq c) :: map attr_ev ra ++ flat_map gen_val items ++ [WEnd (c_rq c)]
   end.
 
 Definition gen_any (v : gval) : list wevent := gen_val v.
@@ -458,6 +519,8 @@ Definition gen_choice (c : wcfg) (v : gval) : option (list wevent) :=
       if existsb (str_eqb q) (c_typed c) then None
       else if match_namespace (c_nss c) q then Some [WStart (c_vq c); WData (Some (PStr (prim_text p))); WEnd (c_vq c)]
       else None
+  | GHolder n _ _ _ =>
+      if existsb (str_eqb (c_rq n)) (c_typed c) then None else Some (gen_val v)
   | _ => None
   end.
 
@@ -663,13 +726,13 @@ Definition roundtrip_written (o : oracle) (m : nsmap) (p : node_id) (t : itree) 
   | Some v => write_tree (gen_any v)
   | None => None
   end.
-Definition holder_roundtrip (c : wcfg) (o : oracle) (t : itree) : option itree :=
-  match wild_parse c (pump o [] [] t) with
+Definition holder_roundtrip (reg : list wcfg) (c : wcfg) (o : oracle) (t : itree) : option itree :=
+  match wild_parse reg c (pump o [] [] t) with
   | Ok r => match gen_root c r with Some evs => itree_of_wevents evs | None => None end
   | Err _ => None
   end.
-Definition holder_written (c : wcfg) (o : oracle) (t : itree) : option itree :=
-  match wild_parse c (pump o [] [] t) with
+Definition holder_written (reg : list wcfg) (c : wcfg) (o : oracle) (t : itree) : option itree :=
+  match wild_parse reg c (pump o [] [] t) with
   | Ok r => match gen_root c r with Some evs => write_tree evs | None => None end
   | Err _ => None
   end.
